@@ -1217,6 +1217,10 @@ func genGoMiniAll() []*leanFile {
 		[]string{sv + "api.go"},
 		map[string][]string{sv + "api.go": {"apiServer.SubscribeInternal"}},
 		[]string{sv + "api.go"})})
+	out = append(out, &leanFile{name: "GoStreamConfig", raw: genGoMini("GoStreamConfig",
+		[]string{sv + "api.go"},
+		map[string][]string{sv + "api.go": {"getStreamConfig"}},
+		[]string{sv + "api.go"})})
 	out = append(out, &leanFile{name: "GoAuthz", raw: genGoMini("GoAuthz",
 		[]string{sv + "api.go"},
 		map[string][]string{sv + "api.go": {
